@@ -1169,6 +1169,7 @@ pub fn c07_all(ctx: &mut Ctx) {
     c07::<Sonic>(ctx, n);
     c07::<Ipa>(ctx, n);
     c07::<Pst13>(ctx, n);
+    c07_hyrax(ctx, n);
 }
 
 // ------------------------------------------------------------------------------------------------
@@ -1783,17 +1784,18 @@ where
         ctx.rep.count(&format!("{}/lc-shared-point-{}", S::NAME, shared_points));
         ctx.rep.case(&desc, Some(format!("{}/lc/{}/{}/{}", S::NAME, nlc, nlabels, shared_points)));
         if !out.accepted() { continue; }
-        // (1) claimed value changed
+        // (1) claimed value changed — at every (combination, point) of the query set in turn
         {
-            let id = format!("{}/value", id0);
             let keys: Vec<_> = ev.keys().cloned().collect();
-            let k = range(&mut rng, 0, keys.len() - 1);
-            let mut ev2 = ev.clone();
-            *ev2.get_mut(&keys[k]).unwrap() += rand_nonzero(&mut rng);
-            let o = check(&mut rng, &lcs, &qs, &ev2, &proof);
-            if o.accepted() { ctx.rep.expect_fail(&id, &format!("{}/lc-false-accepted/value", S::NAME), "changed combination value accepted", fail_replay(&inst, &id, ctx.seed, &desc)); }
-            ctx.rep.count(&format!("{}/lc-value", S::NAME));
-            ctx.rep.case(&format!("{} lc value out={:?}", S::NAME, o), Some(format!("{}/lcv/{}", S::NAME, i)));
+            for k in 0..keys.len() {
+                let id = format!("{}/value@{}", id0, k);
+                let mut ev2 = ev.clone();
+                *ev2.get_mut(&keys[k]).unwrap() += rand_nonzero(&mut rng);
+                let o = check(&mut rng, &lcs, &qs, &ev2, &proof);
+                if o.accepted() { ctx.rep.expect_fail(&id, &format!("{}/lc-false-accepted/value", S::NAME), &format!("changed combination value accepted (claim {} of {})", k, keys.len()), fail_replay(&inst, &id, ctx.seed, &desc)); }
+                ctx.rep.count(&format!("{}/lc-value", S::NAME));
+                ctx.rep.case(&format!("{} lc value@{} out={:?}", S::NAME, k, o), Some(format!("{}/lcv/{}/{}", S::NAME, i, k)));
+            }
         }
         // (2) verifier-side coefficient / (3) constant term changed
         for which in ["coefficient", "constant"] {
@@ -1886,4 +1888,42 @@ pub fn c06_all(ctx: &mut Ctx) {
     c06::<UniLigero>(ctx, n.min(40));
     c06::<MlLigero>(ctx, n.min(20));
     c06::<Brakedown>(ctx, n.min(20));
+}
+
+/// C07 for Hyrax (hiding is unconditional): the row blinding comes from the caller's RNG
+pub fn c07_hyrax(ctx: &mut Ctx, n: usize) {
+    type S = Hyrax;
+    for i in 0..n {
+        let id = format!("C07/hyrax/{}", i);
+        if !ctx.selected(&id) { continue; }
+        let mut rng = rng_for(ctx.seed, "C07/hyrax", i as u64);
+        let sizes = S::sizes(&mut rng, ctx.thorough);
+        let pp = match <S as Scheme>::PC::setup(1, sizes.num_vars, &mut rng) { Ok(p) => p, Err(_) => continue };
+        let (ck, _vk) = <S as Scheme>::PC::trim(&pp, 1, 1, None).unwrap();
+        let poly = S::rand_poly(&mut rng, &sizes, 1);
+        let lp = LabeledPolynomial::new("p".to_string(), poly, None, None);
+        let seed_rng = rng.clone();
+        let mut r1 = CountRng::new(seed_rng.clone());
+        let c1 = match guarded(|| <S as Scheme>::PC::commit(&ck, [&lp], Some(&mut r1))) { Ok(Ok(x)) => x.0, _ => {
+            ctx.rep.expect_fail(&id, "hyrax/hiding-commit-refused", "commit refused", format!("# hyrax commit nv={:?}\n", sizes.num_vars)); continue; } };
+        let mut r1b = seed_rng.clone();
+        let c1b = <S as Scheme>::PC::commit(&ck, [&lp], Some(&mut r1b)).unwrap().0;
+        let mut r2 = rng_for(ctx.seed ^ 0x77, "C07/hyrax/other", i as u64);
+        let c2 = <S as Scheme>::PC::commit(&ck, [&lp], Some(&mut r2)).unwrap().0;
+        let dim = 1usize << (sizes.num_vars.unwrap() / 2);
+        if r1.bytes == 0 {
+            ctx.rep.expect_fail(&id, "hyrax/hiding-without-caller-rng", "commit drew nothing from the caller's RNG", format!("# scheme: hyrax\n# case {}\n# seed {}\n", id, ctx.seed));
+        }
+        if ser(c1[0].commitment()) != ser(c1b[0].commitment()) {
+            ctx.rep.expect_fail(&id, "hyrax/same-seed-differs", "same RNG seed gave a different commitment (blinding not taken from the caller's RNG)", format!("# scheme: hyrax\n# case {}\n# seed {}\n# nv {:?} rows {}\n", id, ctx.seed, sizes.num_vars, dim));
+        }
+        if ser(c1[0].commitment()) == ser(c2[0].commitment()) {
+            ctx.rep.expect_fail(&id, "hyrax/other-seed-equal", "independent RNG streams gave the same commitment", format!("# scheme: hyrax\n# case {}\n", id));
+        }
+        let no = guarded(|| <S as Scheme>::PC::commit(&ck, [&lp], None));
+        if matches!(no, Ok(Ok(_))) {
+            ctx.rep.expect_fail(&id, "hyrax/missing-rng-answered", "commit without an RNG returned a commitment", format!("# scheme: hyrax\n# case {}\n", id));
+        }
+        ctx.rep.case(&format!("hyrax hiding nv={:?} rows={} rng-bytes={}", sizes.num_vars, dim, r1.bytes), Some(format!("hyrax/{:?}/{}", sizes.num_vars, i)));
+    }
 }
